@@ -358,14 +358,19 @@ Fixpoint names_of (d : bytes) (mn : Z) (e1 : Z * Z) (t : list (Z * Z)) : list (b
 Lemma zlen_enc_ent e : zlen (enc_ent e) = 4.
 Proof. unfold enc_ent. rewrite zlen_app, !zlen_pack. reflexivity. Qed.
 
+(* the offsets of a table do not decrease *)
+Fixpoint mono (e1 : Z * Z) (t : list (Z * Z)) : Prop :=
+  match t with [] => True | e2 :: t' => snd e1 <= snd e2 /\ mono e2 t' end.
+
 Lemma vwlb_loop_tab t : forall fuel e1 pre post d mn,
-  (length t < fuel)%nat -> wf_ent e1 -> Forall wf_ent t ->
+  (length t < fuel)%nat -> wf_ent e1 -> Forall wf_ent t -> mono e1 t ->
   d = pre ++ enc_tab (e1 :: t) ++ post ->
   vwlb_loop fuel (zlen t) d (zlen pre) mn = Ok (names_of d mn e1 t).
 Proof.
-  induction t as [|e2 t IH]; intros fuel e1 pre post d mn Hf H1 Ht Hd.
+  induction t as [|e2 t IH]; intros fuel e1 pre post d mn Hf H1 Ht Hm Hd.
   - destruct fuel; reflexivity.
   - destruct fuel as [|f]; [cbn in Hf; lia|]. pose proof (Forall_inv Ht) as H2. pose proof (Forall_inv_tail Ht) as Ht'.
+    destruct Hm as [Hm1 Hm'].
     cbn [vwlb_loop names_of]. rewrite zlen_cons. pose proof (zlen_nonneg t).
     destruct (Z.leb_spec (1 + zlen t) 0); [lia|].
     destruct H1 as [H1a H1b]. destruct H2 as [H2a H2b].
@@ -381,10 +386,10 @@ Proof.
         with ((pre ++ pack 2 Big (fst e1) ++ pack 2 Big (snd e1) ++ pack 2 Big (fst e2)) ++ pack 2 Big (snd e2) ++ (concat (map enc_ent t) ++ post))
         by (repeat rewrite <- app_assoc; reflexivity).
       apply rd_s2_at; [rewrite !zlen_app, !zlen_pack; lia | exact H2b]. }
-    rewrite Ea, Eb, Ec. cbn [bind].
+    rewrite Ea, Eb, Ec. cbn [bind]. destruct (Z.ltb_spec (snd e2) (snd e1)); [lia|].
     replace (1 + zlen t - 1) with (zlen t) by lia.
     replace (zlen pre + 4) with (zlen (pre ++ enc_ent e1)) by (rewrite zlen_app, zlen_enc_ent; reflexivity).
-    rewrite (IH f e2 (pre ++ enc_ent e1) post d mn); [reflexivity | cbn in Hf; lia | split; assumption | exact Ht' |].
+    rewrite (IH f e2 (pre ++ enc_ent e1) post d mn); [reflexivity | cbn in Hf; lia | split; assumption | exact Ht' | exact Hm' |].
     rewrite Hd. unfold enc_tab. cbn [map concat]. repeat rewrite <- app_assoc. reflexivity.
 Qed.
 
@@ -410,6 +415,15 @@ Proof.
     + replace (zlen pre0 + zlen lab0) with (zlen (pre0 ++ lab0)) by (rewrite zlen_app; reflexivity).
       apply (IH sf (pre0 ++ lab0) H post d lab fr).
       rewrite Hd. unfold pool. cbn [map concat fst]. repeat rewrite <- app_assoc. reflexivity.
+Qed.
+
+Lemma mk_tab_mono ms : forall start fr sf, mono (fr, start) (mk_tab (start + 0) ms sf) /\ forall l, 0 <= l -> mono (fr, start) (mk_tab (start + l) ms sf).
+Proof.
+  assert (G : forall ms start fr sf l, 0 <= l -> mono (fr, start) (mk_tab (start + l) ms sf)).
+  { clear ms. induction ms as [|[lab fr'] ms IH]; intros start fr sf l Hl; cbn [mk_tab mono snd].
+    - split; [lia | exact I].
+    - split; [lia|]. apply IH. apply zlen_nonneg. }
+  intros start fr sf. split; [apply G; lia | intros l Hl; apply G; exact Hl].
 Qed.
 
 Lemma mk_tab_length ms : forall s sf, length (mk_tab s ms sf) = S (length ms).
@@ -452,6 +466,7 @@ Proof.
       rewrite mk_tab_length in HT. cbn [length] in *. lia.
     + exact He1.
     + exact Ht.
+    + apply (proj2 (mk_tab_mono ms 0 fr0 sf)). apply zlen_nonneg.
     + unfold d. cbn [mk_tab]. reflexivity.
 Qed.
 
